@@ -25,6 +25,7 @@ func TestMain(m *testing.M) {
 	vh.Assume("the reference codec is my reading of TDS 5.0 (little endian as announced in the login record), anchored by documented vectors; smalldatetime values are exact minutes here (the rounding rule for seconds is not part of the layout)")
 	vh.Rule("also: batches of 2..8 values converted in goroutines at the same time (separate race-detector run)")
 	vh.Rule("also: the Go value printed before it is encoded and encoded a second time (a third of the cases); UNITEXT with NUL inside the text")
+	vh.Rule("also: sequences of conversions with refused attempts in between (int64 for INT4, float64 for FLT4, a string for INT2 / MONEY, 3 bytes for INT4, ...)")
 	vh.Main(m, "C05")
 }
 
